@@ -60,14 +60,16 @@ static void rmdir_all(const std::string& d)
 
 int main()
 {
-	GlobalLogger::set_global_filename("/dev/null");
-	GlobalLogger::set_levels(Logger::Levels());
 	{
 		std::ostringstream d;
 		d << "/tmp/C26-" << getpid();
 		g_dir = d.str();
 		mkdir(g_dir.c_str(), 0700);
 	}
+	// The global logger ROTATES its file when it is constructed (rename name -> name.1 ...): the
+	// name must be a private path, never a device such as /dev/null.
+	GlobalLogger::set_global_filename(g_dir + "/global.log");
+	GlobalLogger::set_levels(Logger::Levels());
 	RecSession *sess(new RecSession);   // never destroyed: ~Session sleeps and touches the connection
 	std::string line;
 	unsigned caseno(0);
